@@ -638,7 +638,8 @@ class IntermediateCodeGen(AbstractCodeGen):
                 )
 
             else:
-                hexval = binval and hex(int(binval, 2))[2:] or ''
+                # keep leading zeros: '00001010'B is the octet 0a, not the half-octet a
+                hexval = binval and '%0*x' % ((len(binval) + 3) // 4, int(binval, 2)) or ''
                 outDict.update(value=hexval, format='hex')
 
         # quoted string
